@@ -27,7 +27,7 @@
 import struct
 
 PROP = "C04"
-READY = False
+READY = True
 COQ_PROPS = ['Properties_C04', 'Properties_C04_result']
 RULE = ('operation scripts over hll_sketch registers and hll_union registers: input sketches of lg_k 4..10 (thorough ..12), the three '
         'target types, every mode (empty list, empty start_full_size HLL, list, set, HLL by promotion, HLL by start_full_size, results '
@@ -387,7 +387,8 @@ MANIFEST = dict(
                 'interleaved estimate/get_result calls and of lvalue/rvalue update [C04_union_interleaving]; nothing offered is lost [C04_nothing_lost]; '
                 'get_result(HLL_4/6/8) is defined, has that lg_k, type and content and is again an admissible input [C04_get_result_any_type]; the register algebra '
                 'of mergeHll (masked fold = per-slot max at the smaller lg_k: C04_downsample_spec, C04_downsample_merge_spec, C04_equal_k_merge_spec); the gadget as a '
-                'sketch through list -> set -> HLL_8 incl. open-addressing growth [C04_gadget_coupon_update]. Inputs are only assumed to satisfy the hll_sketch '
+                'sketch through list -> set -> HLL_8 incl. open-addressing growth [C04_gadget_coupon_update]. At the level of the extracted line protocol (HllUnionDefs.step, the function that runs against the C++): every union operation keeps the invariant and '
+                'get_result / accessor answers agree with the specification values printed beside them [C04_protocol_*]. Inputs are only assumed to satisfy the hll_sketch '
                 'invariant, which C03 proves for every sketch built by updates [C04_all_built_inputs_admissible]. The shipped code is refuted by theorem '
                 '(Regression_hllunion.v: union_refuted = F1, reset_refuted / value_category_refuted = F10). The same definitions are extracted and run against '
                 'hll_union on every check (lg_k, type, mode, emptiness, out-of-order flag, zero-register count as the estimators read it, registers / sorted coupons of '
